@@ -315,7 +315,9 @@ Definition pm_op (s o : pomd) (op_ : op) : res (pomd * out) :=
                                 | Some vs => Ok (k, length vs)
                                 end) (pm_iterkeys s);
       Ok (s, OPairs (pm_items (pm_from_pairs l)))
-  | Inverted => Ok (s, OPairs (pm_items (pm_from_pairs (map (fun p => (snd p, fst p)) (pm_items s)))))
+  | Inverted =>          (* cls((v, k) for k, v in ...): hashing an unhashable value raises *)
+      if existsb unhashable (map snd (pm_items s)) then Raise TypeError
+      else Ok (s, OPairs (pm_items (pm_from_pairs (map (fun p => (snd p, fst p)) (pm_items s)))))
   | Sorted f rv => Ok (s, OPairs (pm_items (pm_from_pairs (py_sorted (kf_item f) rv (pm_items s)))))
   | SortedValues f rv => do r <- pm_sortedvalues s f rv; Ok (s, OPairs (pm_items r))
   | Repr => Ok (s, OPairs (pm_items s))
